@@ -72,7 +72,8 @@ def gen_client(rng, k, cfg, focus):
     user = rng.choice(_NAMES)
     computer = rng.choice(_NAMES)
     process = rng.choice(["rundll32.exe", "svchost.exe", "a.exe"])
-    if focus == "C19" and rng.random() < 0.4:
+    # (long names: the info string "computer<TAB>user<TAB>process" is cut to what fits and may lose its separators)
+    if rng.random() < (0.4 if focus == "C19" else 0.15):
         pool = "abcXYZ09 .-_éü中文\U0001f600"
         user = "".join(rng.choice(pool) for _ in range(rng.choice([0, 1, 5, 20, 51, 60, 200])))
         computer = "".join(rng.choice(pool) for _ in range(rng.choice([0, 1, 15, 30, 51, 120])))
